@@ -7,7 +7,7 @@ TASK.md a fresh sub-agent is pointed at.  The task contains the text of ONE prop
 import json, os, subprocess, sys
 
 ROUND = sys.argv[1]
-IDS = sys.argv[2:] or "C01 C02 C03 C04 C05 C06 C07 C08 C09 C10 C11 C12 C13 C14 C16 C17 C18 C19 C20".split()
+IDS = sys.argv[2:] or "C01 C02 C03 C04 C05 C06 C07 C08 C09 C10 C11 C12 C13 C14 C15 C16 C17 C18 C19 C20".split()
 props = {json.loads(l)["id"]: json.loads(l) for l in open("/verif/properties.jsonl")}
 ALREADY = """
 ## Changes that were already collected in earlier rounds - do NOT hand these in again (find something else)
